@@ -295,8 +295,17 @@ func DuplicateSignatures(signatures []string) bool {
 }
 
 func HasValidSignatures(hash []byte, signatures []string, Nsigs int, pubkeys []*btcec.PublicKey) bool {
-	pubkeysCopy := make([]*btcec.PublicKey, len(pubkeys))
-	copy(pubkeysCopy, pubkeys)
+	// copy list of public keys without duplicates. Keys are compared by their
+	// x-only serialization since that is what the signatures are verified against
+	pubkeysCopy := make([]*btcec.PublicKey, 0, len(pubkeys))
+	for _, pubkey := range pubkeys {
+		duplicate := slices.ContainsFunc(pubkeysCopy, func(pk *btcec.PublicKey) bool {
+			return slices.Equal(schnorr.SerializePubKey(pk), schnorr.SerializePubKey(pubkey))
+		})
+		if !duplicate {
+			pubkeysCopy = append(pubkeysCopy, pubkey)
+		}
+	}
 
 	validSignatures := 0
 	for _, signature := range signatures {
